@@ -1120,4 +1120,302 @@ Lemma pretend_wa p ch : hoare (SameFs f0) false ptrue (write_file_atomically e p
 Proof. intros s HI _. rewrite write_atomically_pretend by exact Hp. split; [exact HI|exact I]. Qed.
 End Pretend.
 
+(* ------------------------------------------------------------------ rename (successful runs) *)
+Lemma at_under_same x r : plain x -> plains r -> at_or_under (lp Lc x) (pa (Lc ++ x :: r)) = true.
+Proof.
+  intros Px Pr. unfold lp. apply at_or_under_pa; [now apply plains_lp|now apply plains_dirty|].
+  exists r. now rewrite <- app_assoc.
+Qed.
+Lemma not_under_other x j r : plain x -> plain j -> plains r -> j <> x ->
+  at_or_under (lp Lc x) (pa (Lc ++ j :: r)) = false.
+Proof.
+  intros Px Pj Pr Hj. destruct (at_or_under (lp Lc x) (pa (Lc ++ j :: r))) eqn:E; [|reflexivity]. exfalso.
+  unfold lp in E. apply at_or_under_pa in E as (t & Et); [|now apply plains_lp|now apply plains_dirty].
+  rewrite <- app_assoc in Et. apply app_inv_head in Et. cbn in Et. injection Et as Et _. congruence.
+Qed.
+Lemma IB0_get f0 f x r : IB [] f0 f -> plain x -> plains r ->
+  fs_get f (pa (Lc ++ x :: r)) = fs_get f0 (pa (Lc ++ x :: r)).
+Proof.
+  intros HI Px Pr. apply (fs_get_local Lc HLc [] f f0 x r (ib_part _ _ _ HI) Px); auto. intros ? [].
+Qed.
+Lemma IB0_in f0 f x r m : IB [] f0 f -> plain x -> plains r ->
+  In (pa (Lc ++ x :: r), m) f0 -> In (pa (Lc ++ x :: r), m) f.
+Proof.
+  intros HI Px Pr Hin.
+  assert (In (pa (Lc ++ x :: r), m) (Lpart Lc [] f0)).
+  { apply filter_In. split; [exact Hin|]. apply Lpred_clean_path; auto. intros ? []. }
+  rewrite <- (ib_part _ _ _ HI) in H. now apply filter_In in H.
+Qed.
+Lemma IB0_hasdir f0 f j : IB [] f0 f -> plain j -> hasdir j f0 -> hasdir j f.
+Proof. intros HI Pj (m & Hm). exists m. unfold lp in *. apply (IB0_in f0 f j [] m HI Pj); [constructor|exact Hm]. Qed.
+
+Lemma Lpart_sub S S' f f' : (forall x, In x S -> In x S') -> Lpart Lc S f = Lpart Lc S f' -> Lpart Lc S' f = Lpart Lc S' f'.
+Proof.
+  intros Hsub E.
+  assert (G0 : forall g, Lpart Lc S' g = filter (fun e => negb (inS Lc S' (fst e))) (Lpart Lc S g)).
+  { intros g. unfold Lpart. rewrite <- filter_andb. apply filter_ext. intros e. unfold Lpred.
+    destruct (inS Lc S' (fst e)) eqn:E1; [now rewrite !andb_false_r|]. rewrite !andb_true_r.
+    destruct (inS Lc S (fst e)) eqn:E2; [|now rewrite andb_true_r]. exfalso.
+    unfold inS in *. apply existsb_exists in E2 as (x & Hx & Hau).
+    assert (existsb (fun n => at_or_under (lp Lc n) (fst e)) S' = true); [|congruence].
+    apply existsb_exists. exists x. split; [now apply Hsub|exact Hau]. }
+  now rewrite !G0, E.
+Qed.
+Lemma IB_sub S S' f0 f : (forall x, In x S -> In x S') -> IB S f0 f -> IB S' f0 f.
+Proof. intros Hsub [H1 H2 H3]. constructor; auto. now apply (Lpart_sub S S'). Qed.
+
+Lemma with_layers_post um body s (Q : wpred) :
+  (forall ld, LDI (skel (read_layer_files c (w_fs (s_w s)))) ld ->
+     check_inheritance (read_layer_files c (w_fs (s_w s))) = true -> paths_ok c (ld_map ld) ->
+     post (fun w => w = s_w s) (body ld) (fun _ => Q)) ->
+  match with_layers c um body s with (Ret _, s') => Q (s_w s') | _ => True end.
+Proof.
+  intros Hb. unfold with_layers, bind at 1, get_fs. cbv beta iota.
+  rewrite guard_k. destruct (base_set_up c (w_fs (s_w s))); [|exact I].
+  unfold bind at 1. destruct (get_layers_spec c um s) as (o & E & Ho). rewrite E.
+  destruct o as [ld| | | |]; try exact I.
+  destruct Ho as (HLD & HC & _). pose proof (Hb ld HLD HC (get_layers_paths _ _ _ _ _ E) s I eq_refl) as H.
+  unfold bind. destruct (body ld s) as [[ld'| | | |] s']; try exact I. cbn. apply H.
+Qed.
+
+Section RenameCmd.
+Variables (f0 : fsT) (old new : bytes) (e : env).
+Hypothesis Hc0 : fs_clean f0.
+Hypothesis Hn0 : nolink f0.
+Hypothesis Hcl0 : closed f0.
+Hypothesis Hnp : e_pretend e = false.
+Hypothesis Po : plain old.
+Hypothesis Pnw : plain new.
+Hypothesis Hon : old <> new.
+
+Definition Sren (K : list bytes) : list bytes := old :: new :: K.
+Definition Ptrue : option bytes -> Prop := fun _ => True.
+
+(* removing the export links *)
+Lemma ren_links_step l : l_name l = old ->
+  hs (fun w => IB [] f0 (w_fs w)) false (remove_export_links e c l) (fun _ => True).
+Proof.
+  intros El. unfold remove_export_links. apply hs_mapM_. intros lt Hlt.
+  assert (Hp : exists r, plains r /\ fst lt = pa (Ec ++ r)).
+  { apply (in_map fst) in Hlt. rewrite (export_links_eq l old El Po) in Hlt.
+    destruct Hbpr as (B1 & _). destruct Hgpr as (G1 & _).
+    destruct Hlt as [<-|[<-|[]]]; eexists; (split; [|reflexivity]); apply plains_app; (split; [assumption|]);
+      constructor; (exact Po || constructor). }
+  destruct Hp as (r & Pr & ->). apply hs_get_fs_k. intros f.
+  destruct (negb (exists_ f _)); [now apply hs_ret|]. destruct (negb (is_symlink f _)); [apply hs_fail|].
+  unfold fs_remove. apply hs_true, hoare_do_op. intros w w' HI _ E. cbn [op_result] in E. unfold on_fres in E.
+  destruct (remove_all (w_fs w) _) as [f'|] eqn:Er; [|discriminate]. injection E as <-. cbn [set_fs w_fs].
+  apply remove_all_shape in Er. subst f'.
+  change (filter _ (w_fs w)) with (pfilter (out_of (pa (Ec ++ r))) (w_fs w)). now apply IB_remove_outside.
+Qed.
+
+(* the state after the directory has been renamed, relative to the state before *)
+Definition RenSt (K : list bytes) (f1 f : fsT) : Prop :=
+  IB (Sren K) f0 f /\ fs_get f (cfgp old) = None /\ fs_get f (cfgp new) = fs_get f1 (cfgp old) /\
+  (hasdir old f1 -> hasdir new f) /\
+  forall j, plain j -> j <> old -> j <> new ->
+    fs_get f (cfgp j) = fs_get f1 (cfgp j) /\ (hasdir j f1 -> hasdir j f).
+
+Lemma ren_dir_post K f1 : IB [] f0 f1 -> fs_get f0 (cfgp old) <> None -> (forall k, In k K -> plain k) ->
+  post (fun w => w_fs w = f1) (fs_rename e (lp Lc old) (lp Lc new)) (fun _ w' => RenSt K f1 (w_fs w')).
+Proof.
+  intros HI1 Hcfg PK. unfold fs_rename. apply post_do_op; [exact Hnp|]. intros w w' Ew E. cbn [op_result] in E.
+  unfold on_fres in E. rewrite Ew in E.
+  destruct (rename f1 _ _) as [f'|] eqn:Er; [|discriminate]. injection E as <-. cbn [set_fs w_fs].
+  assert (PO : plains (Lc ++ [old])) by now apply plains_lp.
+  assert (PN : plains (Lc ++ [new])) by now apply plains_lp.
+  assert (NE : Lc ++ [new] <> []) by (destruct Lc; discriminate).
+  assert (Plc : plains [lcf]) by (constructor; [apply plain_lcf|constructor]).
+  apply rename_shape in Er as [[E _]|(na & Ea & Eu & -> & Hside)].
+  { exfalso. unfold lp in E. apply pa_inj in E; auto. apply app_inv_head in E. injection E as E. congruence. }
+  set (F := filter (not_at (lp Lc new)) f1).
+  assert (HF' : fs_clean F).
+  { intros p m Hin. apply filter_In in Hin as [Hin _]. eapply (ib_clean _ _ _ HI1); eauto. }
+  assert (HFg : forall q, q <> lp Lc new -> fs_get F q = fs_get f1 q).
+  { intros q Hq. apply fs_get_filter. intros m. unfold not_at. cbn [fst]. now apply negb_true_iff, beq_false. }
+  (* the directory being renamed is a directory *)
+  assert (Hold_dir : fs_get f1 (lp Lc old) = Some Dir).
+  { unfold lp. change (Lc ++ [old]) with (Lc ++ old :: []). rewrite (IB0_get f0 f1 old [] HI1 Po); [|constructor].
+    destruct (fs_get f0 (cfgp old)) as [m|] eqn:Em; [|congruence]. apply fs_get_In in Em.
+    assert (Hnr : cfgp old <> root).
+    { unfold cfgp. intros E. apply (pa_root_iff (Lc ++ [old; lcf])) in E; [destruct Lc; discriminate|].
+      apply plains_dirty; [exact Po|exact Plc]. }
+    pose proof (Hcl0 _ _ Em Hnr) as Hd. unfold cfgp in Hd. change (Lc ++ [old; lcf]) with (Lc ++ [old] ++ [lcf]) in Hd.
+    rewrite app_assoc, pathdir_pa in Hd; [exact Hd|exact PO|apply plain_lcf]. }
+  assert (Hna : na = Dir) by congruence.
+  (* nothing of the target directory is in the way *)
+  assert (Hfree : forall r m, plains r -> r <> [] -> ~ In (pa (Lc ++ new :: r), m) f1).
+  { intros r m Pr Hr Hin. unfold lp in Hside. change (Lc ++ [new]) with (Lc ++ new :: []) in Hside.
+    rewrite (IB0_get f0 f1 new [] HI1 Pnw) in Hside by constructor.
+    assert (Hin0 : fs_get f0 (pa (Lc ++ new :: r)) <> None).
+    { rewrite <- (IB0_get f0 f1 new r HI1 Pnw Pr). intros E. apply (proj1 (fs_get_None _ _) E m Hin). }
+    destruct (fs_get f0 (pa (Lc ++ new :: [])) ) as [[| |]|] eqn:En.
+    - destruct Hside as [_ Hh]. unfold has_children in Hh.
+      assert (existsb (fun e0 => under (pa (Lc ++ [new])) (fst e0)) f1 = true); [|congruence].
+      apply existsb_exists. exists (pa (Lc ++ new :: r), m). split; [exact Hin|]. cbn [fst].
+      apply under_pa; [exact PN|now apply plains_dirty|]. exists r. split; [exact Hr|now rewrite <- app_assoc].
+    - subst na. now apply Hside.
+    - subst na. now apply Hside.
+    - apply Hin0. change (Lc ++ new :: r) with (Lc ++ [new] ++ r). rewrite app_assoc.
+      apply (closed_none f0 (Lc ++ [new]) Hcl0 PN); [exact En|exact Pr]. }
+  assert (Hdis : forall r, plains r -> at_or_under (pa (Lc ++ [old])) (pa ((Lc ++ [new]) ++ r)) = false).
+  { intros r Pr. rewrite <- app_assoc. apply (not_under_other old new r Po Pnw Pr). congruence. }
+  split; [|split; [|split; [|split]]].
+  - assert (HI1' : IB (Sren K) f0 f1) by (apply (IB_sub [] (Sren K)); [intros ? []|exact HI1]).
+    constructor.
+    + apply (move_clean (Lc ++ [old]) (Lc ++ [new]) PO PN NE F HF').
+    + intros y t Py Ey. apply fs_get_move_cases in Ey as [[_ Ey]|(p & Hp1 & Hp2 & Hp3)].
+      * unfold F in Ey. destruct (beq (cfgp y) (lp Lc new)) eqn:E.
+        -- apply beq_true in E. rewrite E, fs_get_filter_none in Ey; [discriminate|].
+           intros m. unfold not_at. cbn [fst]. now rewrite beq_refl.
+        -- rewrite fs_get_filter in Ey; [now apply (ib_nolink _ _ _ HI1 y t)|].
+           intros m. unfold not_at. cbn [fst]. now rewrite E.
+      * pose proof (fs_get_In _ _ _ Hp3) as Hin. pose proof (HF' _ _ Hin) as Hc.
+        apply clean_abs_repr in Hc as (ps & Pp & ->). unfold lp in Hp1.
+        apply at_or_under_pa in Hp1 as (r & ->); [|exact PO|exact Pp].
+        assert (Pr : plains r) by (apply plains_app in Pp; tauto).
+        unfold lp, cfgp in Hp2. rewrite move_target in Hp2 by assumption.
+        apply pa_inj in Hp2; [|apply plains_app; now split|apply plains_dirty; [exact Py|exact Plc]].
+        rewrite <- app_assoc in Hp2. apply app_inv_head in Hp2. cbn in Hp2. injection Hp2 as <- ->.
+        unfold F in Hp3. rewrite fs_get_filter in Hp3.
+        -- rewrite <- app_assoc in Hp3. apply (ib_nolink _ _ _ HI1 old t Po Hp3).
+        -- intros m. unfold not_at. cbn [fst]. apply negb_true_iff, beq_false. unfold lp. intros E. apply pa_inj in E; auto.
+           rewrite <- app_assoc in E. apply app_inv_head in E. discriminate.
+    + unfold F, lp. change (Lc ++ [old]) with (Lc ++ old :: []). change (Lc ++ [new]) with (Lc ++ new :: []).
+      rewrite (Lpart_rename (Sren K) f1 old [] new []); auto.
+      * apply (ib_part _ _ _ HI1').
+      * apply (ib_clean _ _ _ HI1).
+      * now left.
+      * right; now left.
+      * constructor.
+      * constructor.
+  - unfold lp. apply (rename_get_source (Lc ++ [old]) (Lc ++ [new]) PO NE F (cfgp old) HF'); [|exact Hdis].
+    unfold cfgp. apply (at_under_same old [lcf] Po Plc).
+  - unfold lp, cfgp. change (Lc ++ [new; lcf]) with (Lc ++ [new] ++ [lcf]). change (Lc ++ [old; lcf]) with (Lc ++ [old] ++ [lcf]).
+    rewrite !app_assoc. rewrite (rename_get_target (Lc ++ [old]) (Lc ++ [new]) PO PN NE F [lcf] HF' Plc).
+    + rewrite <- app_assoc. apply HFg. unfold lp. intros E. apply pa_inj in E; auto.
+      * apply app_inv_head in E. discriminate.
+      * apply plains_dirty; [exact Po|exact Plc].
+    + intros [q m] Hin. apply filter_In in Hin as [Hin _]. cbn [fst]. intros ->.
+      rewrite <- app_assoc in Hin. apply (Hfree [lcf] m Plc); [discriminate|exact Hin].
+  - intros _. exists Dir. apply in_map_iff. exists (lp Lc old, Dir). split.
+    + unfold move_entry. cbn [fst snd].
+      assert (Hs : at_or_under (lp Lc old) (lp Lc old) = true) by (unfold at_or_under; now rewrite beq_refl).
+      rewrite Hs. f_equal. unfold lp.
+      pose proof (move_target (Lc ++ [old]) (Lc ++ [new]) [] PO) as MT. rewrite !app_nil_r in MT.
+      apply MT; [constructor|exact NE].
+    + apply filter_In. split; [now apply fs_get_In|]. unfold not_at. cbn [fst]. apply negb_true_iff, beq_false.
+      unfold lp. intros E. apply pa_inj in E; auto. apply app_inv_head in E. injection E as E. congruence.
+  - intros j Pj Hjo Hjn. split.
+    + unfold lp. rewrite (rename_get_other (Lc ++ [old]) (Lc ++ [new]) PO PN NE F (cfgp j) HF').
+      * apply HFg. unfold cfgp, lp. intros E. apply pa_inj in E; auto.
+        -- apply app_inv_head in E. discriminate.
+        -- apply plains_dirty; [exact Pj|exact Plc].
+      * apply (not_under_other old j [lcf] Po Pj Plc Hjo).
+      * apply (not_under_other new j [lcf] Pnw Pj Plc Hjn).
+    + intros (m & Hm). exists m. apply in_map_iff. exists (lp Lc j, m). split.
+      * unfold move_entry. cbn [fst snd]. unfold lp at 2. change (Lc ++ [j]) with (Lc ++ j :: []).
+        rewrite (not_under_other old j [] Po Pj); [reflexivity|constructor|exact Hjo].
+      * apply filter_In. split; [exact Hm|]. unfold not_at. cbn [fst]. apply negb_true_iff, beq_false.
+        unfold lp. intros E. apply pa_inj in E; auto; [|now apply plains_lp].
+        apply app_inv_head in E. injection E as E. congruence.
+Qed.
+
+(* state while the children (names [done]) have been retargeted *)
+Definition KidSt (K done : list bytes) (f : fsT) : Prop :=
+  IB (Sren K) f0 f /\ fs_get f (cfgp old) = None /\ fs_get f (cfgp new) = fs_get f0 (cfgp old) /\
+  hasdir new f /\
+  forall j, plain j -> j <> old -> j <> new ->
+    (hasdir j f0 -> hasdir j f) /\
+    (if memb j done then cfgbase f j = Some new else fs_get f (cfgp j) = fs_get f0 (cfgp j)).
+
+(* rewriting one layerconfig inside a dirty directory, on return *)
+Lemma write_cfg_post K g l k : IB (Sren K) f0 g -> plain k -> In k (Sren K) ->
+  l_path l = layer_path c k -> mounts_ok l ->
+  post (fun w => w_fs w = g) (write_layerfile e l)
+    (fun _ w' => IB (Sren K) f0 (w_fs w') /\ cfgbase (w_fs w') k = Some (l_base l) /\
+                 (hasdir k g -> hasdir k (w_fs w')) /\ frame g k (w_fs w')).
+Proof.
+  intros HI Pk Hk Ep (Hb & Hm & He). unfold write_layerfile. rewrite (layerconfig_path_eq l k Ep Pk).
+  apply (post_write_atomically _ _ (fun x w => Tv1 (Sren K) f0 g k Ptrue x w)); [exact Hnp| | |]; rewrite ?tmp_path_eq.
+  - intros w w' Ew E. apply (tv_open (Sren K) f0 g k Ptrue Pk Hk w w'); [|exact E].
+    unfold Inv1. rewrite Ew. split; [exact HI|]. split; [exact I|]. split; [auto|]. intros j _ _. split; auto.
+  - intros x ch w HT. now apply (tv_append (Sren K) f0 g k Ptrue Pk Hk).
+  - intros w w' HT E. destruct (tv_rename (Sren K) f0 g k Ptrue Pk Hk _ w w' HT E) as (H1 & H2 & _ & H3 & H4).
+    split; [exact H1|]. split; [|split; assumption]. rewrite H2, layerfile_roundtrip by assumption. reflexivity.
+Qed.
+
+Lemma kid_step K done g l k : KidSt K done g -> plain k -> In k K -> k <> old -> k <> new -> l_base l = new ->
+  l_path l = layer_path c k -> mounts_ok l ->
+  post (fun w => w_fs w = g) (write_layerfile e l) (fun _ w' => KidSt K (done ++ [k]) (w_fs w')).
+Proof.
+  intros (HI & H1 & H2 & H3 & H4) Pk Hk Hko Hkn Eb Ep Hl.
+  eapply post_conseq; [apply (write_cfg_post K g l k HI Pk)| |]; auto.
+  { right; now right. }
+  intros _ w' (A1 & A2 & A3 & A4). cbv beta.
+  destruct (A4 old Po (not_eq_sym Hko)) as [B1 _]. destruct (A4 new Pnw (not_eq_sym Hkn)) as [B2 B3].
+  split; [exact A1|]. split; [congruence|]. split; [congruence|]. split; [now apply B3|].
+  intros j Pj Hjo Hjn. destruct (H4 j Pj Hjo Hjn) as [C1 C2].
+  assert (Em : memb j (done ++ [k]) = memb j done || beq j k).
+  { unfold memb. rewrite existsb_app. cbn [existsb]. now rewrite orb_false_r. }
+  rewrite Em. destruct (beq j k) eqn:Ejk.
+  - apply beq_true in Ejk. subst j. rewrite orb_true_r. split; [intros H; apply A3; now apply C1|].
+    now rewrite A2, Eb.
+  - apply beq_false in Ejk. rewrite orb_false_r. destruct (A4 j Pj Ejk) as [D1 D2]. split; [intros H; apply D2; now apply C1|].
+    destruct (memb j done); [unfold cfgbase in *; now rewrite D1|congruence].
+Qed.
+
+Definition FinSt (K : list bytes) (lb : bytes) (f : fsT) : Prop :=
+  IB (Sren K) f0 f /\ fs_get f (cfgp old) = None /\ cfgbase f new = Some lb /\ hasdir new f /\
+  forall j, plain j -> j <> old -> j <> new ->
+    (hasdir j f0 -> hasdir j f) /\
+    (if memb j K then cfgbase f j = Some new else fs_get f (cfgp j) = fs_get f0 (cfgp j)).
+
+Lemma self_step K g l : KidSt K K g -> l_path l = layer_path c new -> mounts_ok l ->
+  post (fun w => w_fs w = g) (write_layerfile e l) (fun _ w' => FinSt K (l_base l) (w_fs w')).
+Proof.
+  intros (HI & H1 & H2 & H3 & H4) Ep Hl.
+  eapply post_conseq; [apply (write_cfg_post K g l new HI Pnw)| |]; auto.
+  { right; now left. }
+  intros _ w' (A1 & A2 & A3 & A4). cbv beta.
+  destruct (A4 old Po Hon) as [B1 _].
+  split; [exact A1|]. split; [congruence|]. split; [exact A2|]. split; [now apply A3|].
+  intros j Pj Hjo Hjn. destruct (H4 j Pj Hjo Hjn) as [C1 C2]. destruct (A4 j Pj Hjn) as [D1 D2].
+  split; [intros H; apply D2; now apply C1|].
+  destruct (memb j K); [unfold cfgbase in *; now rewrite D1|congruence].
+Qed.
+
+(* the renamed forest *)
+Lemma ren_final K lb f : FinSt K lb f -> gforest (G f0) -> G f0 new = None -> new <> [] -> old <> [] ->
+  G f0 old = Some lb -> legal_name new = true ->
+  (forall x, memb x K = true <-> G f0 x = Some old) -> (forall k, In k K -> plain k) ->
+  gforest (G f).
+Proof.
+  intros (HI & H1 & H2 & H3 & H4) HG Hfree Hn0' Ho0 Hgo Lnw HK PK.
+  apply (gforest_ext (g_ren (G f0) old new)); [|now apply gforest_ren].
+  assert (Hloop : G f0 old <> Some old).
+  { intros E. destruct (HG _ _ E) as (k & Hk). assert (greach (G f0) old (S k)) by (econstructor; eauto).
+    pose proof (greach_det _ _ _ Hk _ H). lia. }
+  assert (PS : forall y, In y (Sren K) -> plain y) by (intros y [<-|[<-|Hy]]; auto).
+  intros x. unfold g_ren. destruct (beq x new) eqn:E1.
+  - apply beq_true in E1. subst x. destruct H3 as (m & Hm).
+    rewrite (G_of_cfgbase f new m (ib_clean _ _ _ HI) (ib_nolink _ _ _ HI) Pnw Lnw Hm). congruence.
+  - apply beq_false in E1. destruct (beq x old) eqn:E2.
+    + apply beq_true in E2. subst x.
+      destruct (G_cases f old (ib_clean _ _ _ HI) (ib_nolink _ _ _ HI)) as [E|(_ & _ & _ & E)]; [now rewrite E|].
+      rewrite E. unfold cfgbase. now rewrite H1.
+    + apply beq_false in E2. destruct (memb x K) eqn:EK.
+      * pose proof (proj1 (HK x) EK) as Egx. rewrite Egx. unfold ren. rewrite beq_refl.
+        destruct (G_some_child f0 x _ Hc0 Hn0 Egx) as (Px & Lx & Hd & _).
+        destruct (H4 x Px E2 E1) as [C1 C2]. rewrite EK in C2. destruct (C1 Hd) as (m & Hm).
+        rewrite (G_of_cfgbase f x m (ib_clean _ _ _ HI) (ib_nolink _ _ _ HI) Px Lx Hm). now symmetry.
+      * assert (Hx : ~ In x (Sren K)).
+        { intros [E|[E|E]]; [congruence|congruence|]. apply memb_In in E. congruence. }
+        rewrite (G_out (Sren K) f f0 x (ib_clean _ _ _ HI) Hc0 (ib_nolink _ _ _ HI) Hn0 (ib_part _ _ _ HI) PS Hx).
+        destruct (G f0 x) as [bx|] eqn:Egx; [|reflexivity]. f_equal. unfold ren.
+        destruct (beq bx old) eqn:E3; [|reflexivity]. apply beq_true in E3. subst bx.
+        apply HK in Egx. congruence.
+Qed.
+End RenameCmd.
+
 End WithCfg.
